@@ -293,13 +293,16 @@ def st_placed_case(draw, scheme):
         combos = [c for c in S.PI2LEV_COMBOS[idsz] if c[1] <= 3 and c[0] <= 4 and c[0] * c[2] * c[3] >= 24]
         Bk, b, Bp, bp = draw(st.sampled_from(combos))
         cfg.update(param_B=Bk, param_b=b, param_B_prime=Bp, param_b_prime=bp, param_identifier_size=idsz)
-        if draw(st.booleans()):
-            # exactly one array-resident keyword (it owns every array block), the other keywords stay in the dictionary
-            lim = min(desc.limit(cfg) - 1, 120)
-            need = 18 * Bk
-            lens = [min(lim, max(b + 1, need + draw(st.integers(0, 2 * Bk))))] + [draw(st.integers(1, b)) for _ in range(draw(st.integers(0, 4)))]
-            if desc.a_len(cfg, lens) - 1 < 18 or not desc.lens_ok(cfg, lens):
-                lens = [lim]
+        single = [c for c in S.PI2LEV_COMBOS[idsz] if c[3] == 64 and c[0] <= 8 and max(c[1] + 1, 17 * c[0] + 1) <= min(c[0] * 64, 260)]
+        if draw(st.booleans()) and single:
+            # exactly one array-resident keyword in the MEDIUM case (it owns every array slot: its blocks are the whole array), all
+            # other keywords stay in the dictionary - the 'one popular keyword, many rare ones' shape
+            Bk, b, Bp, bp = draw(st.sampled_from(single))
+            cfg.update(param_B=Bk, param_b=b, param_B_prime=Bp, param_b_prime=bp, param_identifier_size=idsz)
+            n = draw(st.integers(max(b + 1, 17 * Bk + 1), min(Bk * 64, 260)))
+            lens = [n] + [draw(st.integers(1, min(b, 5))) for _ in range(draw(st.integers(0, 4)))]
+            if not desc.lens_ok(cfg, lens):
+                lens = [n]
         else:
             lim = min(desc.limit(cfg) - 1, 40)
             k = draw(st.integers(3, 10))
